@@ -21,6 +21,7 @@ Ltac np_step :=
   | |- is_panic (if ?c then _ else _) = false => destruct c eqn:?
   | |- is_panic (match ?x with Some _ => _ | None => _ end) = false => destruct x eqn:?
   | |- is_panic (let '(_, _) := ?x in _) = false => destruct x eqn:?
+  | |- is_panic (match ?x with _ => _ end) = false => destruct x eqn:?
   end.
 Ltac np := repeat np_step.
 
@@ -39,14 +40,534 @@ Section Treasury.
 
   Theorem texecute_no_panic s e sender m : tenv_sane e -> is_panic (texecute va av s e sender m) = false.
   Proof.
-    intros He. unfold texecute. destruct m; np.
-    - apply np_of_opt. unfold add64. unfold tenv_sane in He. destruct (_ <=? _) eqn:E; [discriminate | lia].
-    - destruct routes; [discriminate | np].
-    - match goal with H : route_allowed _ _ = true |- _ => apply route_allowed_nonempty in H end.
-      destruct (rev routes) eqn:R; [| np].
-      exfalso. apply (f_equal (@rev hop)) in R. rewrite rev_involutive in R. cbn in R. congruence.
+    intros He. unfold texecute. destruct m.
+    - np.
+    - np.
+    - np.
+    - destruct channel; np. apply np_of_opt. unfold add64. unfold tenv_sane in He. destruct (_ <=? _) eqn:E; [discriminate | lia].
+    - destruct (String.eqb (t_trader s) sender); [|reflexivity]. destruct (route_allowed (t_routes s) routes) eqn:R; [|reflexivity].
+      destruct routes; [discriminate R|]. destruct (String.eqb _ _); reflexivity.
+    - destruct (String.eqb (t_trader s) sender); [|reflexivity]. destruct (route_allowed (t_routes s) routes) eqn:R; [|reflexivity].
+      apply route_allowed_nonempty in R. destruct (rev routes) eqn:V.
+      + exfalso. apply (f_equal (@rev hop)) in V. rewrite rev_involutive in V. cbn in V. congruence.
+      + destruct (String.eqb _ _); reflexivity.
+    - np.
   Qed.
 
   Theorem tquery_no_panic s : t_admin s <> None -> is_panic (tquery s) = false.
   Proof. intros H. unfold tquery. np. apply np_of_opt. exact H. Qed.
 End Treasury.
+
+(* ---------- staking: the stated domain ---------- *)
+From MW.Proofs Require Import Arith Maps Handlers Invariant Ledger.
+
+Definition E27 : N := 1000000000000000000000000000.
+Definition RSLACK : N := 1000000.     (* rates the code can represent comfortably: far beyond the stated [10^-3, 10^3] *)
+
+(* exchange rate within [10^-3, 10^3] (no rate when no LST is outstanding) *)
+Definition rate_dom (n l : N) : Prop := l = 0 \/ (l <= 1000 * n /\ n <= 1000 * l).
+(* what the rate computation needs *)
+Definition rate_safe (n l : N) : Prop := l = 0 \/ (0 < n /\ l <= RSLACK * n /\ n <= RSLACK * l).
+
+Lemma rate_dom_safe n l : rate_dom n l -> rate_safe n l.
+Proof. unfold rate_dom, rate_safe, RSLACK. intros [H|[H1 H2]]; [left; exact H|]. destruct (N.eq_dec l 0); [left; assumption|]. right. lia. Qed.
+
+Definition dom_env (e : env) : Prop := now_ns e <= 2 ^ 63 /\ (forall t, txi e = Some t -> t < 2 ^ 32).
+
+Definition dom_batch (b : batch) : Prop :=
+  b_total b <= E27 /\ b_id b < 2 ^ 63 /\ opt_default 0 (b_count b) < 2 ^ 63
+  /\ opt_default 0 (b_time b) * 1000000000 <= u64_max
+  /\ (forall x, b_received b = Some x -> x <= E27).
+
+Record dom_state (s : store) : Prop := {
+  ds_n : total_native (st s) <= E27;
+  ds_l : total_lst (st s) <= E27;
+  ds_r : total_reward (st s) <= E27;
+  ds_f : total_fees (st s) <= E27;
+  ds_rate : rate_dom (total_native (st s)) (total_lst (st s));
+  ds_batch_vals : forall b, In b (nvals (batches s)) -> dom_batch b;
+  ds_requests : forall r, In r (requests s) -> r_amount r <= E27;
+  ds_packets : forall p, In p (nvals (inflight s)) -> c_amount (p_coin p) <= E27;
+  ds_keys : forall k, In k (nkeys (inflight s)) -> k < 2 ^ 63;
+  ds_count : N.of_nat (List.length (inflight s)) < 2 ^ 32 }.
+
+Lemma ds_batches s (D : dom_state s) k b : nfind k (batches s) = Some b -> dom_batch b.
+Proof. intros F. apply (ds_batch_vals s D). apply nfind_In in F. apply (in_map snd) in F. exact F. Qed.
+
+Definition dom_funds (i : info) : Prop := forall c, In c (funds i) -> c_amount c <= E27.
+
+Lemma get_rates_safe x : rate_safe (total_native x) (total_lst x) -> get_rates x <> None.
+Proof.
+  unfold rate_safe, get_rates, RSLACK. intros [H|(Hn & H1 & H2)].
+  - rewrite H. cbn. discriminate.
+  - destruct (total_lst x =? 0) eqn:E; [discriminate|].
+    unfold from_ratio. assert (E1 : (total_lst x =? 0) = false) by exact E. rewrite E1.
+    assert (E2 : (total_native x =? 0) = false) by lia. rewrite E2. cbv zeta.
+    assert (A : total_native x * dec_one / total_lst x <= 1000000 * dec_one).
+    { apply N.div_le_upper_bound; [lia|]. unfold dec_one. nia. }
+    assert (B : total_lst x * dec_one / total_native x <= 1000000 * dec_one).
+    { apply N.div_le_upper_bound; [lia|]. unfold dec_one. nia. }
+    assert (C : 1000000 * dec_one <= u128_max) by (vm_compute; discriminate).
+    destruct (_ <=? u128_max) eqn:F1; [|lia]. destruct (total_lst x * dec_one / total_native x <=? u128_max) eqn:F2; [|lia]. discriminate.
+Qed.
+
+Section StakingNP.
+  Variable va : string -> string -> bool.
+  Variable dv : string -> string -> string -> option string.
+  Variable av : string -> bool.
+  Notation execute := (execute va dv av).
+
+  Lemma oracle_np s e : rate_safe (total_native (st s)) (total_lst (st s)) -> is_panic (oracle_msgs s e) = false.
+  Proof. intros H. unfold oracle_msgs. np. apply np_of_opt. apply get_rates_safe. exact H. Qed.
+
+  Lemma ibc_sub_np s e rcv c id : dom_env e -> is_panic (ibc_sub s e rcv c id) = false.
+  Proof.
+    intros [He Ht]. unfold ibc_sub.
+    assert (B1 : 2 ^ 63 + 1000000000000 <= 2 ^ 64 - 1) by (vm_compute; discriminate).
+    assert (B2 : 2 ^ 32 + 2 ^ 63 <= 2 ^ 64 - 1) by (vm_compute; discriminate).
+    np; try discriminate;
+      try (match goal with Hx : forall t, Some ?n = Some t -> _ |- _ => specialize (Hx _ eq_refl) end);
+      apply np_of_opt; unfold add64, IBC_TIMEOUT_NS, u64_max; (destruct (_ <=? _) eqn:E; [discriminate | lia]).
+  Qed.
+
+  (* handlers without a panicking operator *)
+  Lemma simple_handlers_np s e i :
+    (forall v, is_panic (execute_add_validator va s i v) = false)
+    /\ (forall v, is_panic (execute_remove_validator va s i v) = false)
+    /\ (forall o, is_panic (execute_transfer_ownership av s e i o) = false)
+    /\ is_panic (execute_revoke_ownership s i) = false
+    /\ is_panic (execute_accept_ownership s e i) = false
+    /\ (forall n p f m bp, is_panic (update_config va s i n p f m bp) = false)
+    /\ (forall id, is_panic (receive_unstaked_tokens dv s e i id) = false)
+    /\ is_panic (circuit_breaker s i) = false
+    /\ (forall a, is_panic (fee_withdraw s e i a) = false).
+  Proof.
+    repeat split; intros;
+      unfold execute_add_validator, execute_remove_validator, execute_transfer_ownership, execute_revoke_ownership,
+             execute_accept_ownership, update_config, receive_unstaked_tokens, circuit_breaker, fee_withdraw, assert_admin, check_stopped;
+      np.
+  Qed.
+
+  Lemma req_sum_member b q rs : In q rs -> r_batch q = b -> r_amount q <= req_sum b rs.
+  Proof.
+    induction rs as [|r rs IH]; intros Hin Hb; [contradiction|]. rewrite req_sum_cons. destruct Hin as [->|Hin].
+    - assert (E : (r_batch q =? b) = true) by lia. rewrite E. lia.
+    - specialize (IH Hin Hb). lia.
+  Qed.
+
+  Lemma resume_np s e i n l r : rate_dom n l -> is_panic (resume_contract s e i n l r) = false.
+  Proof.
+    intros H. unfold resume_contract, assert_admin. np. apply oracle_np. cbn. apply rate_dom_safe. exact H.
+  Qed.
+
+  Lemma withdraw_np s e i id : I_batches s -> I_requests s -> dom_state s -> is_panic (execute_withdraw s e i id) = false.
+  Proof.
+    intros HB HR D. unfold execute_withdraw, check_stopped.
+    destruct (stopped (cfg s)); [reflexivity|]. cbn [bind].
+    destruct (nfind id (batches s)) as [b|] eqn:F; [|reflexivity]. cbn [of_opt_err bind].
+    destruct (bstatus_eqb (b_status b) Received) eqn:S; [|reflexivity].
+    destruct HB as (_ & _ & _ & Hok). destruct (Hok _ _ F) as (Hid & _ & _ & Hst).
+    assert (SR : b_status b = Received) by (destruct (b_status b); cbn in S; congruence). rewrite SR in Hst.
+    destruct Hst as (_ & _ & Hrecv). destruct (b_received b) as [recv|] eqn:R; [|congruence]. cbn [of_opt bind].
+    destruct (find_request (b_id b) (sender i) (requests s)) as [q|] eqn:Q; [|reflexivity]. cbn [of_opt_err bind].
+    apply find_request_some in Q as (Qin & Qb & _).
+    destruct HR as (Hpos & _ & _ & Hsum). specialize (Hsum _ _ F). destruct (Hpos _ Qin) as [Hq0 _].
+    assert (Hle : r_amount q <= b_total b).
+    { pose proof (req_sum_member id q (requests s) Qin ltac:(lia)) as M. destruct (id =? pending_id s); lia. }
+    destruct (ds_batches s D _ _ F) as (_ & _ & _ & _ & Hrcv). specialize (Hrcv _ R).
+    assert (M : mul_ratio recv (r_amount q) (b_total b) = Some (recv * r_amount q / b_total b)).
+    { apply mul_ratio_total; [lia|]. assert (recv * r_amount q / b_total b <= recv) by (apply N.div_le_upper_bound; [lia | nia]).
+      unfold E27, u128_max in *. lia. }
+    rewrite M. cbn [of_opt bind]. apply np_bind; [| intros; reflexivity].
+    apply oracle_np. cbn. apply rate_dom_safe. apply (ds_rate s D).
+  Qed.
+
+  Lemma unstake_np s e i a : I_batches s -> I_requests s -> dom_state s -> a <= E27 -> is_panic (execute_liquid_unstake s e i a) = false.
+  Proof.
+    intros HB HR D Ha. unfold execute_liquid_unstake, check_stopped.
+    destruct (stopped (cfg s)); [reflexivity|]. cbn [bind].
+    destruct HB as (_ & Hp1 & Hall & Hok).
+    destruct (nfind (pending_id s) (batches s)) as [b|] eqn:F; [| exfalso; apply (Hall (pending_id s)); [lia | exact F]].
+    destruct (ds_batches s D _ _ F) as (Hbt & _ & Hcnt & _).
+    assert (A1 : add128 (b_total b) a = Some (b_total b + a)).
+    { unfold add128. destruct (_ <=? _) eqn:E; [reflexivity|]. unfold E27, u128_max in *. lia. }
+    assert (A2 : add64 (opt_default 0 (b_count b)) 1 = Some (opt_default 0 (b_count b) + 1)).
+    { unfold add64. destruct (_ <=? _) eqn:E; [reflexivity|]. unfold u64_max in *. assert (2 ^ 63 + 1 <= 2 ^ 64 - 1) by (vm_compute; discriminate). lia. }
+    destruct (find_request (pending_id s) (sender i) (requests s)) as [q|] eqn:Q.
+    - apply find_request_some in Q as (Qin & _). pose proof (ds_requests s D _ Qin) as Hq.
+      assert (A0 : add128 (r_amount q) a = Some (r_amount q + a)).
+      { unfold add128. destruct (_ <=? _) eqn:E; [reflexivity|]. unfold E27, u128_max in *. lia. }
+      rewrite A0. cbn [of_opt bind of_opt_err]. rewrite A1. reflexivity.
+    - cbn [of_opt bind of_opt_err]. rewrite A1. cbn [of_opt bind]. rewrite A2. reflexivity.
+  Qed.
+
+  Lemma submit_np s e : I_batches s -> I_requests s -> dom_state s -> dom_env e -> is_panic (execute_submit_batch s e) = false.
+  Proof.
+    intros HB HR D He. unfold execute_submit_batch, check_stopped.
+    destruct (stopped (cfg s)); [reflexivity|]. cbn [bind].
+    destruct (nfind (pending_id s) (batches s)) as [b|] eqn:F; [|reflexivity]. cbn [of_opt_err bind].
+    destruct (b_time b) as [t|]; [|reflexivity]. destruct (now_s e <? t); [reflexivity|]. cbn [bind].
+    destruct (batch_has_request (pending_id s) (requests s)); [|reflexivity].
+    destruct (b_total b <=? total_lst (st s)) eqn:Hle; [|reflexivity].
+    destruct (ds_batches s D _ _ F) as (Hbt & Hid & _).
+    assert (A : add64 (b_id b) 1 = Some (b_id b + 1)).
+    { unfold add64. destruct (b_id b + 1 <=? u64_max) eqn:E; [reflexivity|]. unfold u64_max in *. assert (2 ^ 63 + 1 <= 2 ^ 64 - 1) by (vm_compute; discriminate). lia. }
+    rewrite A. cbn [of_opt bind]. destruct (deadline (now_s e) (batch_period (cfg s))) as [nt|]; [|reflexivity]. cbn [of_opt_err bind].
+    pose proof (ds_n s D) as Hn. pose proof (ds_l s D) as Hl. pose proof (ds_rate s D) as Hr.
+    set (N := total_native (st s)) in *. set (L := total_lst (st s)) in *. set (B := b_total b) in *.
+    assert (U : exists u, compute_unbond N L B = Some u /\ (B = 0 -> u = 0) /\ (B <> 0 -> L <> 0 /\ u = N * B / L /\ u <= N)).
+    { unfold compute_unbond. destruct (B =? 0) eqn:E0.
+      - exists 0. split; [reflexivity|]. split; [reflexivity | lia].
+      - assert (L <> 0) by lia. exists (N * B / L). assert (N * B / L <= N) by (apply submit_unbond_le; lia).
+        split; [apply mul_ratio_total; [lia | unfold E27, u128_max in *; lia]|]. split; [lia|]. intros _. repeat split; lia. }
+    destruct U as (u & -> & U0 & U1). cbn [of_opt bind].
+    destruct (deadline (now_s e) (nc_unbonding (native (cfg s)))) as [at_|]; [|reflexivity]. cbn [of_opt_err bind].
+    apply np_bind; [| intros; reflexivity]. apply oracle_np. cbn.
+    (* the rate after the submission *)
+    unfold rate_safe, RSLACK. destruct (N.eq_dec (L - B) 0) as [Z|Z]; [left; exact Z|]. right.
+    destruct (N.eq_dec B 0) as [B0|B0].
+    - rewrite (U0 B0), B0. replace (N - 0) with N by lia. replace (L - 0) with L in * by lia.
+      destruct Hr as [Hr|[H1 H2]]; [lia|]. lia.
+    - destruct (U1 B0) as (HL & -> & Hu). destruct Hr as [Hr|[H1 H2]]; [lia|].
+      pose proof (N.div_mod (N * B) L HL) as DM. pose proof (N.mod_lt (N * B) L HL) as ML.
+      set (q := N * B / L) in *. set (r := (N * B) mod L) in *.
+      assert (K1 : (N - q) * L >= N * (L - B)) by nia.
+      assert (K2 : (N - q) * L <= N * (L - B) + L) by nia.
+      repeat split; nia.
+  Qed.
+
+  Lemma add128_small a b : a <= 2 * E27 -> b <= 2 * E27 -> add128 a b = Some (a + b).
+  Proof. intros Ha Hb. unfold add128. destruct (a + b <=? u128_max) eqn:E; [reflexivity|]. unfold E27, u128_max in *. lia. Qed.
+
+  (* ReceiveRewards: the reward [a] keeps the rate inside the stated range *)
+  Lemma rewards_np s e i :
+    dom_state s -> dom_env e -> dom_funds i ->
+    (forall c, find_coin (pc_denom (protocol (cfg s))) (funds i) = Some c ->
+               rate_dom (total_native (st s) + c_amount c) (total_lst (st s))) ->
+    is_panic (receive_rewards dv s e i) = false.
+  Proof.
+    intros D He Hf Hpost. unfold receive_rewards, check_stopped.
+    destruct (stopped (cfg s)); [reflexivity|]. cbn [bind].
+    destruct (negb (total_lst (st s) =? 0)) eqn:L0; [|reflexivity].
+    destruct (hook_sender_ok dv s (nc_collector (native (cfg s))) i); [|reflexivity].
+    destruct (find_coin (pc_denom (protocol (cfg s))) (funds i)) as [c|] eqn:C; [|reflexivity]. cbn [of_opt_err bind].
+    specialize (Hpost _ eq_refl).
+    assert (Ha : c_amount c <= E27).
+    { apply Hf. unfold find_coin in C. apply find_some in C. tauto. }
+    destruct (mul_ratio (fee_rate (fees (cfg s))) (c_amount c) FEE_DENOM) as [fee|]; [|reflexivity]. cbn [of_opt_err bind].
+    destruct (sub_checked (c_amount c) fee) as [after|] eqn:S; [|reflexivity]. cbn [of_opt_err bind].
+    apply sub_checked_some in S as [-> Hfee].
+    pose proof (ds_n s D). pose proof (ds_r s D). pose proof (ds_f s D).
+    rewrite add128_small by (unfold E27 in *; lia). cbn [of_opt bind].
+    rewrite add128_small by (unfold E27 in *; lia). cbn [of_opt bind].
+    assert (F : is_panic (match fee_treasury (fees (cfg s)) with
+                          | Some _ => Ok (total_fees (st s)) | None => of_opt (add128 (total_fees (st s)) fee) 876 end) = false).
+    { destruct (fee_treasury (fees (cfg s))); [reflexivity|]. rewrite add128_small by (unfold E27 in *; lia). reflexivity. }
+    apply np_bind; [exact F|]. intros f' _.
+    apply np_bind; [apply ibc_sub_np; exact He|]. intros [s2 sub] Hs. apply ibc_sub_ok in Hs as (_ & -> & _).
+    apply np_bind; [| intros; reflexivity]. apply oracle_np. cbn.
+    unfold rate_safe, RSLACK. right. assert (total_lst (st s) <> 0) by lia.
+    pose proof (ds_rate s D) as [R|[R1 R2]]; [contradiction|]. destruct Hpost as [P|[P1 P2]]; [contradiction|].
+    repeat split; lia.
+  Qed.
+
+  Lemma sub_id_bound e id : dom_env e -> (forall k, id = Some k -> k < 2 ^ 63 + 2 ^ 33) -> sub_id e id < 2 ^ 63 + 2 ^ 33.
+  Proof.
+    intros [He Ht] Hid. unfold sub_id. destruct id as [k|]; [apply Hid; reflexivity|].
+    assert (2 ^ 32 < 2 ^ 33) by (vm_compute; reflexivity). assert (0 < 2 ^ 33) by (vm_compute; reflexivity).
+    destruct (txi e) as [t|] eqn:T; [specialize (Ht _ eq_refl); lia | lia].
+  Qed.
+
+  (* LiquidStake of [a] base units by a sender whose address carries the protocol prefix *)
+  Lemma stake_np s e i a mt tn ex :
+    dom_state s -> dom_env e -> a <= E27 ->
+    (mt = None -> slen (pc_prefix (protocol (cfg s))) <= slen (sender i)) ->
+    is_panic (execute_liquid_stake va s e i a mt tn ex) = false.
+  Proof.
+    intros D He Ha Hsender. unfold execute_liquid_stake, check_stopped.
+    destruct (stopped (cfg s)); [reflexivity|]. cbn [bind].
+    apply np_bind.
+    { destruct mt; [reflexivity|]. specialize (Hsender eq_refl).
+      destruct (slen (sender i) <? slen (pc_prefix (protocol (cfg s)))) eqn:E; [lia|]. destruct (_ =? 39); reflexivity. }
+    intros _ _. cbv zeta.
+    destruct (va (opt_default (sender i) mt) (nc_prefix (native (cfg s))) || va (opt_default (sender i) mt) (pc_prefix (protocol (cfg s)))); [|reflexivity].
+    destruct (pc_min (protocol (cfg s)) <=? a); [|reflexivity].
+    pose proof (ds_n s D) as Hn. pose proof (ds_l s D) as Hl. pose proof (ds_r s D) as Hrw. pose proof (ds_f s D) as Hfe. pose proof (ds_rate s D) as Hr.
+    set (x := st s) in *.
+    (* the state after the sweep: totals (N1, L1) with N1 = 0 -> L1 = 0, and N1 <> 0 -> rate in range *)
+    assert (X1 : exists x1,
+               (if (total_lst x =? 0) && negb (total_native x =? 0)
+                then do f <- of_opt (add128 (total_fees x) (total_native x)) 192; Ok (set_totals x 0 (total_lst x) (total_reward x) f)
+                else Ok x) = Ok x1
+               /\ total_native x1 <= E27 /\ total_lst x1 <= E27
+               /\ (total_native x1 = 0 -> total_lst x1 = 0)
+               /\ (total_native x1 <> 0 -> total_lst x1 <= 1000 * total_native x1 /\ total_native x1 <= 1000 * total_lst x1)).
+    { destruct ((total_lst x =? 0) && negb (total_native x =? 0)) eqn:SW.
+      - rewrite add128_small by (unfold E27 in *; lia). cbn [of_opt bind]. eexists. split; [reflexivity|]. cbn.
+        apply andb_true_iff in SW as [S1 S2]. repeat split; try lia.
+      - exists x. split; [reflexivity|]. repeat split; try assumption.
+        + intros Z. destruct Hr as [Hr|[H1 H2]]; lia.
+        + destruct Hr as [Hr|[H1 H2]]; [|lia]. apply andb_false_iff in SW. destruct SW as [SW|SW]; lia.
+        + destruct Hr as [Hr|[H1 H2]]; [|lia]. apply andb_false_iff in SW. destruct SW as [SW|SW]; lia. }
+    destruct X1 as (x1 & -> & Hn1 & Hl1 & Z1 & R1). cbn [bind].
+    set (N1 := total_native x1) in *. set (L1 := total_lst x1) in *.
+    assert (M : exists m, compute_mint N1 L1 a = Some m /\ m <= 1000 * a
+                          /\ (m <> 0 -> rate_safe (N1 + a) (L1 + m))).
+    { unfold compute_mint. destruct (N1 =? 0) eqn:E0.
+      - exists a. split; [reflexivity|]. split; [lia|]. intros Hm. assert (L1 = 0) by (apply Z1; lia).
+        unfold rate_safe, RSLACK. right. lia.
+      - assert (HN : N1 <> 0) by lia. destruct (R1 HN) as [Ra Rb].
+        pose proof (N.div_mod (L1 * a) N1 HN) as DM. pose proof (N.mod_lt (L1 * a) N1 HN) as ML.
+        set (q := L1 * a / N1) in *. set (r := (L1 * a) mod N1) in *.
+        assert (Q1 : q <= 1000 * a) by nia.
+        exists q. split; [apply mul_ratio_total; [lia | unfold E27, u128_max in *; lia]|]. split; [exact Q1|].
+        intros Hq. unfold rate_safe, RSLACK. right. assert (Q2 : a <= 2000 * q) by nia. repeat split; lia. }
+    destruct M as (m & -> & Hm & Hrate). cbn [of_opt bind].
+    destruct (negb (m =? 0)) eqn:M0; [|reflexivity].
+    destruct (match ex with Some ex0 => ex0 <=? m | None => true end); [|reflexivity].
+    apply np_bind; [apply ibc_sub_np; exact He|]. intros [s1 stake_sub] Hs1. apply ibc_sub_ok in Hs1 as (-> & -> & _).
+    assert (A1 : add128 N1 a = Some (N1 + a)) by (apply add128_small; unfold E27 in *; lia).
+    assert (A2 : add128 L1 m = Some (L1 + m)).
+    { unfold add128. destruct (L1 + m <=? u128_max) eqn:E; [reflexivity|]. unfold E27, u128_max in *. lia. }
+    rewrite A1. cbn [of_opt bind]. rewrite A2. cbn [of_opt bind].
+    apply np_bind; [apply oracle_np; cbn; apply Hrate; lia|]. intros om _.
+    destruct (if _ && _ then _ else _); [reflexivity|].
+    assert (A3 : add64 (sm_id (transfer_sub s e (sub_id e None) (nc_staker (native (cfg s))) {| c_denom := pc_denom (protocol (cfg s)); c_amount := a |} (now_ns e + IBC_TIMEOUT_NS))) 1
+                 = Some (sub_id e None + 1)).
+    { cbn [transfer_sub sm_id]. pose proof (sub_id_bound e None He ltac:(discriminate)) as B. unfold add64.
+      destruct (sub_id e None + 1 <=? u64_max) eqn:E; [reflexivity|]. unfold u64_max in *.
+      assert (2 ^ 63 + 2 ^ 33 + 1 <= 2 ^ 64 - 1) by (vm_compute; discriminate). lia. }
+    rewrite A3. cbn [of_opt bind].
+    apply np_bind; [apply ibc_sub_np; exact He|]. intros [s3 lst_sub] _. reflexivity.
+  Qed.
+
+  (* ---------- forced / permissionless recovery ---------- *)
+  Lemma take_n_sub {A} n (l : list A) : incl (take_n n l) l /\ (List.length (take_n n l) <= List.length l)%nat.
+  Proof.
+    revert n. induction l as [|x l IH]; intros n; cbn; [split; [apply incl_refl | lia]|].
+    destruct (n =? 0); [split; [intros y Hy; contradiction | cbn; lia]|]. destruct (IH (n - 1)) as [I L].
+    split; [intros y [->|Hy]; [left; reflexivity | right; apply I; exact Hy] | cbn; lia].
+  Qed.
+
+  Lemma filter_len {A} (f : A -> bool) l : (List.length (filter f l) <= List.length l)%nat.
+  Proof. induction l as [|x l IH]; cbn; [lia|]. destruct (f x); cbn; lia. Qed.
+
+  Lemma paginate_sub {A} (m : nmap A) lim f :
+    incl (paginate m None lim f) (nvals m) /\ (List.length (paginate m None lim f) <= List.length m)%nat.
+  Proof.
+    unfold paginate, after_cursor. destruct (take_n_sub (opt_default u32_max lim) (filter f (nvals m))) as [I L].
+    split.
+    - intros y Hy. apply I in Hy. apply filter_In in Hy. tauto.
+    - pose proof (filter_len f (nvals m)) as FL. unfold nvals in *. rewrite map_length in FL. lia.
+  Qed.
+
+  Lemma load_selected_sub ids (m : nmap packet) rcv : forall acc ps,
+    load_selected ids m rcv acc = Ok ps ->
+    (forall p, In p ps -> In p acc \/ In p (nvals m)) /\ List.length ps = (List.length acc + List.length ids)%nat.
+  Proof.
+    induction ids as [|k ids IH]; intros acc ps H; cbn in H.
+    - inversion H; subst. split; [intros p Hp; left; apply in_rev; exact Hp | rewrite rev_length; cbn; lia].
+    - destruct (nfind k m) as [p|] eqn:F; [|discriminate]. destruct (negb _); [discriminate|]. destruct (existsb _ acc); [discriminate|].
+      apply IH in H as [I L]. split.
+      + intros q Hq. destruct (I q Hq) as [[->|Ha]|Hm]; [right | left; exact Ha | right; exact Hm].
+        apply nfind_In in F. unfold nvals. apply (in_map snd) in F. exact F.
+      + cbn in *. lia.
+  Qed.
+
+  Lemma sum_packets_small ps : forall acc,
+    (forall p, In p ps -> c_amount (p_coin p) <= E27) ->
+    acc + N.of_nat (List.length ps) * E27 <= u128_max -> sum_packets ps acc <> None.
+  Proof.
+    induction ps as [|p ps IH]; intros acc Hp Hb; cbn [sum_packets]; [discriminate|].
+    assert (Ha : c_amount (p_coin p) <= E27) by (apply Hp; left; reflexivity).
+    cbn [List.length] in Hb. rewrite Nat2N.inj_succ in Hb.
+    unfold add128. destruct (acc + c_amount (p_coin p) <=? u128_max) eqn:E; [| nia].
+    apply IH; [intros q Hq; apply Hp; right; exact Hq | nia].
+  Qed.
+
+  Lemma nlast_key_in {A} (m : nmap A) k : nlast_key m = Some k -> In k (nkeys m).
+  Proof.
+    induction m as [|[j v] m IH]; cbn; [discriminate|]. destruct m as [|kv m'].
+    - intros H; inversion H; left; reflexivity.
+    - intros H. right. apply IH. exact H.
+  Qed.
+
+  Lemma recover_np s e i sel rcvo page :
+    dom_state s -> dom_env e -> (forall ids, sel = Some ids -> N.of_nat (List.length ids) < 2 ^ 32) ->
+    is_panic (recover va s e i sel rcvo page) = false.
+  Proof.
+    intros D He Hsel. unfold recover.
+    apply np_bind; [destruct sel; [unfold assert_admin; destruct (is_admin s (sender i)); reflexivity | reflexivity]|]. intros _ _.
+    apply np_bind; [destruct rcvo; [destruct (va _ _); reflexivity | reflexivity]|]. intros rcv _.
+    set (PS := match sel with Some ids => load_selected ids (inflight s) rcv [] | None => Ok _ end).
+    assert (HPS : is_panic PS = false /\ forall ps, PS = Ok ps ->
+               (forall p, In p ps -> In p (nvals (inflight s))) /\ N.of_nat (List.length ps) < 2 ^ 32).
+    { unfold PS. destruct sel as [ids|].
+      - split.
+        + clear. generalize (@nil packet). induction ids as [|k ids IH]; intros acc; cbn; [reflexivity|].
+          destruct (nfind k (inflight s)); [|reflexivity]. destruct (negb _); [reflexivity|]. destruct (existsb _ acc); [reflexivity|]. apply IH.
+        + intros ps H. apply load_selected_sub in H as [I L]. split.
+          * intros p Hp. destruct (I p Hp) as [[]|Hm]. exact Hm.
+          * rewrite L. cbn. apply Hsel. reflexivity.
+      - split; [reflexivity|]. intros ps H. inversion H; subst.
+        destruct (paginate_sub (inflight s) (if page then Some PAGE_SIZE else None) (fun p => String.eqb (p_receiver p) rcv && refundable (p_status p))) as [I L].
+        split; [intros p Hp; apply I; exact Hp|]. pose proof (ds_count s D). lia. }
+    destruct HPS as [HP1 HP2]. apply np_bind; [exact HP1|]. intros ps Hps. destruct (HP2 _ Hps) as [Hin Hlen].
+    destruct ps as [|p0 rest]; [reflexivity|].
+    destruct (forallb _ rest); [|reflexivity].
+    assert (NE : inflight s <> []).
+    { intros Z. specialize (Hin p0 (or_introl eq_refl)). rewrite Z in Hin. contradiction. }
+    destruct (nlast_key_some (inflight s) NE) as [maxid HM]. rewrite HM. cbn [of_opt bind].
+    apply np_bind.
+    { apply np_of_opt. apply sum_packets_small; [intros p Hp; apply (ds_packets s D); apply Hin; exact Hp|].
+      assert (2 ^ 32 * E27 <= u128_max) by (vm_compute; discriminate). nia. }
+    intros total _.
+    pose proof (ds_keys s D _ (nlast_key_in _ _ HM)) as HK.
+    assert (A : add64 maxid 1 = Some (maxid + 1)).
+    { unfold add64. destruct (maxid + 1 <=? u64_max) eqn:E; [reflexivity|]. unfold u64_max in *. assert (2 ^ 63 + 1 <= 2 ^ 64 - 1) by (vm_compute; discriminate). lia. }
+    rewrite A. cbn [of_opt bind].
+    apply np_bind; [apply ibc_sub_np; exact He|]. intros [s2 sub] _. reflexivity.
+  Qed.
+
+  (* ---------- reply, sudo ---------- *)
+  Lemma reply_np s id rr : is_panic (reply s id rr) = false.
+  Proof. unfold reply. np. Qed.
+  Lemma sudo_np s m : is_panic (sudo s m) = false.
+  Proof. unfold sudo. destruct m; np. Qed.
+
+  (* ---------- queries ---------- *)
+  Lemma batch_to_response_np b : dom_batch b -> is_panic (batch_to_response b) = false.
+  Proof. intros (_ & _ & _ & Ht & _). unfold batch_to_response. cbv zeta. destruct (u64_max <? _) eqn:E; [lia | reflexivity]. Qed.
+
+  Lemma map_result_np (l : list batch) : (forall b, In b l -> dom_batch b) -> is_panic (map_result batch_to_response l) = false.
+  Proof.
+    induction l as [|b l IH]; intros H; cbn [map_result]; [reflexivity|].
+    apply np_bind; [apply batch_to_response_np; apply H; left; reflexivity|]. intros y _.
+    apply np_bind; [apply IH; intros c Hc; apply H; right; exact Hc|]. intros; reflexivity.
+  Qed.
+
+  Lemma paginate_incl {A} (m : nmap A) sa lim f : incl (paginate m sa lim f) (nvals m).
+  Proof.
+    unfold paginate. intros y Hy. apply (proj1 (take_n_sub _ _)) in Hy. apply filter_In in Hy as [Hy _].
+    unfold after_cursor in Hy. destruct sa as [k|]; [|exact Hy]. unfold nvals in *. apply in_map_iff in Hy as (kv & <- & Hk).
+    apply filter_In in Hk as [Hk _]. apply in_map. exact Hk.
+  Qed.
+
+  Theorem query_no_panic s q : dom_state s -> is_panic (query s q) = false.
+  Proof.
+    intros D. destruct q; cbn [query]; try reflexivity.
+    - apply np_bind; [| intros; reflexivity]. apply np_of_opt. apply get_rates_safe. apply rate_dom_safe. apply (ds_rate s D).
+    - destruct (nfind id (batches s)) as [b|] eqn:F; [|reflexivity]. cbn [of_opt_err bind].
+      apply np_bind; [apply batch_to_response_np; eapply ds_batches; eassumption | intros; reflexivity].
+    - apply np_bind; [| intros; reflexivity]. apply map_result_np. intros b Hb. apply (ds_batch_vals s D). eapply paginate_incl. exact Hb.
+    - apply np_bind; [| intros; reflexivity]. apply map_result_np. intros b Hb. apply in_flat_map in Hb as (k & _ & Hb).
+      destruct (nfind k (batches s)) as [c|] eqn:F; [|contradiction]. destruct Hb as [<-|[]]. eapply ds_batches; eassumption.
+    - destruct (nfind (pending_id s) (batches s)) as [b|] eqn:F; [|reflexivity]. cbn [of_opt_err bind].
+      apply np_bind; [apply batch_to_response_np; eapply ds_batches; eassumption | intros; reflexivity].
+  Qed.
+
+  (* ---------- instantiate ---------- *)
+  Theorem instantiate_no_panic e i m : is_panic (instantiate va e i m) = false.
+  Proof. unfold instantiate. np. Qed.
+
+  (* ---------- execute ---------- *)
+  (* the part of the domain that concerns the message *)
+  Definition dom_call (s : store) (i : info) (m : execute_msg) : Prop :=
+    match m with
+    | LiquidStake mt _ _ => mt = None -> slen (pc_prefix (protocol (cfg s))) <= slen (sender i)
+    | ReceiveRewards =>
+        forall c, find_coin (pc_denom (protocol (cfg s))) (funds i) = Some c ->
+                  rate_dom (total_native (st s) + c_amount c) (total_lst (st s))
+    | ResumeContract n l _ => rate_dom n l
+    | RecoverPendingIbcTransfers _ sel _ => forall ids, sel = Some ids -> N.of_nat (List.length ids) < 2 ^ 32
+    | _ => True
+    end.
+
+  Lemma must_pay_dom i d a : dom_funds i -> must_pay i d = Ok a -> a <= E27.
+  Proof.
+    unfold must_pay, dom_funds. intros Hf H. destruct (funds i) as [|c [|c2 r]]; try discriminate.
+    destruct (c_amount c =? 0); [discriminate|]. destruct (String.eqb _ _); [|discriminate]. inversion H; subst. apply Hf. left; reflexivity.
+  Qed.
+
+  Theorem execute_no_panic s e i m :
+    I_batches s -> I_requests s -> dom_state s -> dom_env e -> dom_funds i -> dom_call s i m -> is_panic (execute s e i m) = false.
+  Proof.
+    intros HB HR D He Hf Hc. pose proof (simple_handlers_np s e i) as (S1 & S2 & S3 & S4 & S5 & S6 & S7 & S8 & S9).
+    destruct m; cbn [Staking.execute].
+    - apply np_bind; [unfold must_pay; np|]. intros a Ha. apply stake_np; [exact D | exact He | eapply must_pay_dom; eassumption | exact Hc].
+    - apply np_bind; [unfold must_pay; np|]. intros a Ha. apply unstake_np; [exact HB | exact HR | exact D | eapply must_pay_dom; eassumption].
+    - apply submit_np; assumption.
+    - apply withdraw_np; assumption.
+    - apply S1.
+    - apply S2.
+    - apply S3.
+    - apply S5.
+    - apply S4.
+    - apply S6.
+    - apply rewards_np; assumption.
+    - apply S7.
+    - apply S8.
+    - apply resume_np. exact Hc.
+    - apply recover_np; assumption.
+    - apply S9.
+  Qed.
+
+  (* ---------- the invariants the theorem assumes hold in every reachable state ---------- *)
+  Notation apply_call := (Ledger.apply_call va dv av).
+  Definition after (s0 : store) (cs : list Ledger.call) : store := fold_left (fun s c => fst (apply_call s c)) cs s0.
+
+  Lemma instantiate_I_requests e i m s r : instantiate va e i m = Ok (s, r) -> I_requests s.
+  Proof.
+    unfold instantiate. intros H. inv_ok H. inversion H; subst; clear H. unfold I_requests. cbn.
+    split; [intros ? []|]. split; [constructor|]. split; [exact I|].
+    intros k b. destruct (k =? 1) eqn:Ek1; [|discriminate]. intros Hb; injection Hb as <-. reflexivity.
+  Qed.
+
+  Lemma apply_call_invs s c : I_batches s /\ I_requests s -> I_batches (fst (apply_call s c)) /\ I_requests (fst (apply_call s c)).
+  Proof.
+    intros [HB HR]. split; [apply Ledger.apply_call_I_batches; exact HB|].
+    unfold Ledger.apply_call. destruct c as [e i m | id rr | m].
+    - destruct (execute s e i m) as [[s' r]|k|site] eqn:H; cbn [fst]; [| exact HR | exact HR].
+      eapply execute_preserves_I_requests; eassumption.
+    - destruct (reply s id rr) as [[s' r]|k|site] eqn:H; cbn [fst]; [| exact HR | exact HR].
+      apply reply_frame in H as (F1 & F2 & _). eapply I_requests_frame; eassumption.
+    - destruct (sudo s m) as [[s' r]|k|site] eqn:H; cbn [fst]; [| exact HR | exact HR].
+      apply sudo_frame in H as (F1 & F2 & _). eapply I_requests_frame; eassumption.
+  Qed.
+
+  Theorem reachable_invariants e0 i0 m0 s0 r0 cs :
+    instantiate va e0 i0 m0 = Ok (s0, r0) -> I_batches (after s0 cs) /\ I_requests (after s0 cs).
+  Proof.
+    intros H. assert (H0 : I_batches s0 /\ I_requests s0) by (split; [eapply instantiate_I_batches | eapply instantiate_I_requests]; eassumption).
+    clear H. revert s0 H0. induction cs as [|c cs IH]; intros s0 H0; [exact H0|]. cbn [after fold_left]. apply IH. apply apply_call_invs. exact H0.
+  Qed.
+
+  (* the stated domain is inhabited by the state right after instantiation *)
+  Theorem instantiate_in_domain e i m s r : instantiate va e i m = Ok (s, r) -> dom_state s.
+  Proof.
+    unfold instantiate. intros H. inv_ok H.
+    repeat match goal with Hs : of_opt_err _ _ = Ok _ |- _ => apply of_opt_err_ok in Hs end.
+    match goal with Hd : deadline _ _ = Some ?t |- _ => pose proof (deadline_fits _ _ _ Hd) as Ht end.
+    assert (P1 : 1 < 2 ^ 63) by (change 1 with (2 ^ 0); apply N.pow_lt_mono_r; lia).
+    assert (P2 : 0 < 2 ^ 63) by lia.
+    assert (P3 : 0 < 2 ^ 32) by (assert (2 ^ 0 <= 2 ^ 32) by (apply N.pow_le_mono_r; lia); change (2 ^ 0) with 1 in *; lia).
+    inversion H; subst; clear H. constructor; cbn.
+    - unfold E27; lia.
+    - unfold E27; lia.
+    - unfold E27; lia.
+    - unfold E27; lia.
+    - left. reflexivity.
+    - intros bb [<-|[]]. unfold dom_batch. cbn. split; [unfold E27; lia|]. split; [exact P1|]. split; [exact P2|]. split; [exact Ht|]. discriminate.
+    - intros ? [].
+    - intros ? [].
+    - intros ? [].
+    - exact P3.
+  Qed.
+End StakingNP.
+
+(* ---------- migrations ---------- *)
+From MW Require Import Migrate.
+Theorem migrate_no_panic va ms msg : is_panic (migrate va ms msg) = false.
+Proof. unfold migrate. np; destruct msg; np. Qed.
+Theorem tmigrate_no_panic s : is_panic (tmigrate s) = false.
+Proof. unfold tmigrate. np. Qed.
